@@ -105,6 +105,9 @@ type Server struct {
 	Lenient bool
 	// AutoDeliver: replies become readable by the client as soon as executed.
 	AutoDeliver bool
+	// Immediate: every complete request is executed the moment the client has written it, in the client's goroutine
+	// (zero latency; for auxiliary nodes such as the source shard runCluster asks for its role). Set before Listen.
+	Immediate bool
 	// Intercept may answer a request instead of the double (fault injection / cluster redirects).
 	Intercept func(s *Session, name string, args [][]byte) *resp.Value
 	// OnExec observers (invariant checkers).
@@ -156,6 +159,14 @@ func (s *Server) Accept(c *simnet.SimConn) {
 	s.acceptMu.Lock()
 	s.Sessions = append(s.Sessions, sess)
 	s.acceptMu.Unlock()
+	if s.Immediate {
+		c.OnWrite = func() {
+			s.acceptMu.Lock()
+			for s.Step(sess) {
+			}
+			s.acceptMu.Unlock()
+		}
+	}
 }
 
 func nowMs() int64 { return time.Now().UnixMilli() }
